@@ -16,7 +16,8 @@ CONSTANTS RunMax,       \* longest run of concealed frames
           FloorFrames,  \* frames after which the concealment's own gains have reached their floor
           DecayFrames, DecayDiv, FloorTap,
           FsSet, NbSet, \* rates / sub-frame counts explored
-          GlueAt        \* loss-run lengths after which a second decoded frame is explored
+          GlueAt,       \* loss-run lengths after which a second decoded frame is explored
+          AllStep       \* DecayAllOK: every value below 700 in magnitude and every AllStep-th value above
 VARIABLES s, prev, act, ng, nsf, gh
 
 vars == <<s, prev, act, ng, nsf, gh>>
@@ -115,8 +116,8 @@ DecayClause ==
   (Conc /\ s.lc >= DecayFrames) =>
      /\ (s.rs * DecayDiv <= gh.r0 \/ s.rs <= FloorTap)
      /\ (Abs(s.B[3]) * DecayDiv <= Abs(gh.b0) \/ Abs(s.B[3]) <= FloorTap)
-\* ... and the floor: within FloorFrames frames the excitation gain is 0 and the harmonic tap 0 (or -1 when it was negative)
-FloorReached == (Conc /\ s.lc >= FloorFrames) => (s.rs = 0 /\ \A j \in 1..5 : s.B[j] \in {0, 0 - 1})
+\* ... and the floor: within FloorFrames frames the excitation gain is 0 and the harmonic tap 0 (a negative tap sticks at -20 or -19: (31130 * -20) >> 15 = -20)
+FloorReached == (Conc /\ s.lc >= FloorFrames) => (s.rs = 0 /\ \A j \in 1..5 : s.B[j] \in (0 - 20)..0)
 
 \* pitch lag, lossCnt: what the concealment's buffers need (also: no 32-bit overflow of pitchL_Q8 for any run length)
 Ranges == (gh.since > 0) => RangeOK(s)
@@ -182,8 +183,22 @@ ASSUME GlueGridOK
 \* the comfort noise that is added: no overflow, never above the smoothed estimate by more than silk_SQRT_APPROX's error
 CngAddGridOK ==
   \A rs \in {0, 1, 15, 3277, 16384, 20234}, g1 \in GainGrid, cg \in GainGrid \cup {0, 8388608} :
-    LET a == CngAddGainQ16([Fresh EXCEPT !.rs = rs, !.g1 = g1, !.cg = cg]) IN a >= 0 /\ a \div 16 <= (cg \div 16) + (cg \div 160) + 4096
+    LET a == CngAddGainQ16([Fresh EXCEPT !.rs = rs, !.g1 = g1, !.cg = cg]) IN
+    /\ a >= 0 /\ a \div 16 <= (cg \div 16) + (cg \div 160) + 4096
+    \* the floor of speech-layer concealment (the recorded observation's antecedent): once the concealment's own excitation
+    \* gain is 0 the added comfort noise has the smoothed gain of the decoded inactive frames, within silk_SQRT_APPROX's error
+    /\ (rs = 0 /\ cg >= 81920) => a \div 16 >= (cg \div 16) - (cg \div 100)
 ASSUME CngAddGridOK
+
+\* the decay clause for EVERY value the gains can have after the first concealed frame (not only the reachable ones): 19 further
+\* frames of at least 2 sub-frames each at the saturated table entries
+RECURSIVE AttN(_, _, _)
+AttN(v, g, n) == IF n = 0 THEN v ELSE AttN(S16(Shr(SMULBB(g, v), 15)), g, n - 1)
+DecaySteps == 2 * (DecayFrames - 1)
+DecayAllOK ==
+  /\ \A b \in ((0 - 700)..700) \cup {k * AllStep : k \in ((0 - 32768) \div AllStep)..(32767 \div AllStep)} : LET e == AttN(b, HARM_ATT[2], DecaySteps) IN Abs(e) * DecayDiv <= Abs(b) \/ Abs(e) <= FloorTap
+  /\ \A r \in (0..700) \cup {k * AllStep : k \in 0..(32767 \div AllStep)} : \A g \in {RAND_ATT_V[2], RAND_ATT_UV[2]} : LET e == AttN(r, g, DecaySteps) IN e * DecayDiv <= r \/ e <= FloorTap
+ASSUME DecayAllOK
 
 Bound == s.lc <= RunMax
 =============================================================================
